@@ -152,6 +152,10 @@ def run(ctx):
     cases = [run_pick(r) for r in rows]
     rejected, st = tlc.judge_cases('Conf_Pick', [{k: v for k, v in c.items() if not k.startswith('_')} for c in cases])
     ctx.traces += len(cases)
+    from harness import canary
+    from checks import canaries
+    canary.probe(ctx, 'Conf_Pick', [c for i, c in enumerate(cases, 1) if i not in set(rejected)], canaries.pick,
+                 canary.by_cases('Conf_Pick', lambda c: {k: v for k, v in c.items() if not k.startswith('_')}))
     for i in rejected:
         c = cases[i - 1]
         ctx.violation('file-selection:loc=%s' % c['loc'], 'the enforcer uses a different policy file than the selection rule of C09 says',
